@@ -398,6 +398,9 @@ class Ctx:
         'fmtumble': ('GenFM', ['t_tumble']),
         'ucorr': ('GenU', ['t_fast', 't_full']),
         'uint': ('GenU', ['t_integration']),
+        'dcommon': ('GenD', ['t_common', 't_logscale']),
+        'dudf': ('GenD', ['t_udf']),
+        'dint': ('GenD', ['t_integration']),
         # property clauses about the kernels as compiled from source (compose bridges with the model's theorems)
         'ksrccrop': ('GenK', []),
         'ksrceval': ('GenK', []),
@@ -417,6 +420,7 @@ class Ctx:
         import translate_v
         import translate_fm
         import translate_u
+        import translate_d
         gendir = os.path.join(self.rundir, 'gen')
         os.makedirs(gendir, exist_ok=True)
         expanded = []
@@ -429,7 +433,7 @@ class Ctx:
         relevant = set(f for t in topics for f in self.TOPICS[t][1])
         problems = []
         for gf in files:
-            mod = {'Gen': translate, 'GenQ': translate_q, 'GenK': translate_k, 'GenV': translate_v, 'GenFM': translate_fm, 'GenU': translate_u}[gf]
+            mod = {'Gen': translate, 'GenQ': translate_q, 'GenK': translate_k, 'GenV': translate_v, 'GenFM': translate_fm, 'GenU': translate_u, 'GenD': translate_d}[gf]
             # only the functions the requested topics depend on are translated: nothing else can break this property's layer
             txt, probs = mod.translate(REPO, only=relevant)
             problems += probs
